@@ -233,6 +233,9 @@ type eofAnalysis struct {
 	fd   *ast.FuncDecl
 	// sources: error variables assigned from calls that can yield io.EOF (transport reads, first-party decoders)
 	notEOFCallee func(f *types.Func) bool
+	paramTaint   map[types.Object]bool   // when analysing a helper: which parameters may be EOF at the call site
+	paramConst   map[types.Object]string // and which string parameters are constants at the call site
+	depth        int
 }
 
 func (a *eofAnalysis) mayBeEOF(s *astx.State, e ast.Expr, depth int) bool {
@@ -275,6 +278,11 @@ func (a *eofAnalysis) mayBeEOF(s *astx.State, e ast.Expr, depth int) bool {
 		case f.Pkg() != nil && f.Pkg().Path() == core.ConnectPath && f.Name() == "errorf" && len(x.Args) >= 2:
 			format, ok := astx.ConstString(info, x.Args[1])
 			if !ok {
+				if o := astx.ObjOf(info, x.Args[1]); o != nil {
+					format, ok = a.paramConst[o]
+				}
+			}
+			if !ok {
 				return true
 			}
 			// map verbs to arguments
@@ -313,11 +321,51 @@ func (a *eofAnalysis) mayBeEOF(s *astx.State, e ast.Expr, depth int) bool {
 		if a.notEOFCallee != nil && a.notEOFCallee(f) {
 			return false
 		}
+		// a first-party helper: its result may wrap EOF iff one of its returns may, given which
+		// error arguments may be EOF here
+		if hd := a.p.Decl(f); hd != nil && a.p.PkgOf(hd) == a.p.Connect && hd.Body != nil && a.depth < 2 {
+			taint := map[types.Object]bool{}
+			consts := map[types.Object]string{}
+			i := 0
+			for _, fl := range hd.Type.Params.List {
+				for _, n := range fl.Names {
+					if i < len(x.Args) {
+						if t := info.TypeOf(x.Args[i]); t != nil && types.Identical(t, types.Universe.Lookup("error").Type()) {
+							taint[info.Defs[n]] = a.mayBeEOF(s, x.Args[i], depth+1)
+						}
+						if sv, isC := astx.ConstString(info, x.Args[i]); isC {
+							consts[info.Defs[n]] = sv
+						}
+					}
+					i++
+				}
+			}
+			sub := &eofAnalysis{p: a.p, info: info, fd: hd, notEOFCallee: a.notEOFCallee, paramTaint: taint, paramConst: consts, depth: a.depth + 1}
+			result := false
+			astx.ForEachExit(info, hd.Body, func(hs *astx.State, kind astx.ExitKind, ret *ast.ReturnStmt) {
+				if ret == nil {
+					return
+				}
+				for _, r := range ret.Results {
+					if t := info.TypeOf(r); t != nil && (types.Identical(t, types.Universe.Lookup("error").Type()) || astx.TypeIs(t, core.ConnectPath, "Error")) {
+						if sub.mayBeEOF(hs, r, 0) {
+							result = true
+						}
+					}
+				}
+			})
+			return result
+		}
 		return true
 	case *ast.Ident, *ast.SelectorExpr:
 		obj := astx.ObjOf(info, e)
 		if obj == nil {
 			return true
+		}
+		if t, isParam := a.paramTaint[obj]; isParam {
+			if !t {
+				return false
+			}
 		}
 		// facts that exclude EOF
 		if s.HasFact(func(fe ast.Expr, pol bool) bool {
